@@ -174,8 +174,57 @@ const (
 	kCodecT
 	kNilOK
 	kCodec0
+	kCodecM
+	kCodecR
 	kCount
 )
+
+// CodecM is a codec-style error that can also render itself as JSON (for logs, say): its codec form
+// is what travels, whatever other interfaces the type implements.
+type CodecM struct {
+	Msg string
+	N   int
+}
+
+func (e *CodecM) Error() string { return fmt.Sprintf("codecm:%s:%d", e.Msg, e.N) }
+func (e *CodecM) ToJSONRPCError() (jsonrpc.JSONRPCError, error) {
+	return jsonrpc.JSONRPCError{Code: 3004, Message: e.Msg, Data: e.N}, nil
+}
+func (e *CodecM) FromJSONRPCError(j jsonrpc.JSONRPCError) error {
+	e.Msg = j.Message
+	f, ok := j.Data.(float64)
+	if !ok {
+		return fmt.Errorf("data is %T", j.Data)
+	}
+	e.N = int(f)
+	return nil
+}
+func (e *CodecM) MarshalJSON() ([]byte, error) {
+	return json.Marshal(map[string]interface{}{"log_msg": e.Msg, "log_n": e.N})
+}
+func (e *CodecM) UnmarshalJSON(b []byte) error {
+	var d struct {
+		M string `json:"log_msg"`
+		N int    `json:"log_n"`
+	}
+	if err := json.Unmarshal(b, &d); err != nil {
+		return err
+	}
+	e.Msg, e.N = d.M, d.N
+	return nil
+}
+
+// CodecR supplies a code from the range JSON-RPC reserves for implementation-defined server errors.
+type CodecR struct{ Msg string }
+
+func (e *CodecR) Error() string { return "codecr:" + e.Msg }
+func (e *CodecR) ToJSONRPCError() (jsonrpc.JSONRPCError, error) {
+	return jsonrpc.JSONRPCError{Code: -32000, Message: e.Msg, Data: "r"}, nil
+}
+func (e *CodecR) FromJSONRPCError(j jsonrpc.JSONRPCError) error {
+	e.Msg = j.Message
+	return nil
+}
 
 // Codec0 is a codec-style error that leaves the code at 0 and the message empty; all it has to say is in Data.
 type Codec0 struct{ Data string }
@@ -212,7 +261,7 @@ func (e *NilOK) Error() string {
 	return "nilok:" + e.Msg
 }
 
-var c11KindName = []string{"nil", "errors.New", "fmt.Errorf", "wrapped", "EVal(value,plain)", "EPtr(pointer,plain)", "MPtr(pointer,marshalable)", "MVal(value,marshalable)", "CodecS", "CodecD", "CodecF", "CodecT(ToJSONRPCError fails)", "typed-nil", "Codec0(code 0, empty message)"}
+var c11KindName = []string{"nil", "errors.New", "fmt.Errorf", "wrapped", "EVal(value,plain)", "EPtr(pointer,plain)", "MPtr(pointer,marshalable)", "MVal(value,marshalable)", "CodecS", "CodecD", "CodecF", "CodecT(ToJSONRPCError fails)", "typed-nil", "Codec0(code 0, empty message)", "CodecM(codec with MarshalJSON)", "CodecR(reserved-range code)"}
 
 func mkErr(kind int, msg string, a int) error {
 	switch kind {
@@ -245,6 +294,10 @@ func mkErr(kind int, msg string, a int) error {
 		return (*NilOK)(nil)
 	case kCodec0:
 		return &Codec0{Data: msg}
+	case kCodecM:
+		return &CodecM{Msg: msg, N: a}
+	case kCodecR:
+		return &CodecR{Msg: msg}
 	}
 	return nil
 }
@@ -293,6 +346,8 @@ func regAll(e *jsonrpc.Errors, base jsonrpc.ErrorCode) {
 	e.Register(3001, new(*CodecS))
 	e.Register(3002, new(*CodecD))
 	e.Register(3003, new(*CodecF))
+	e.Register(3004, new(*CodecM))
+	e.Register(-32000, new(*CodecR))
 }
 
 func tables(t int) (srv, cli *jsonrpc.Errors) {
@@ -495,6 +550,10 @@ func (c11) Run(sc core.Scenario) core.Result {
 			code, isCodec = 3002, true
 		case kCodecF:
 			code, isCodec = 3003, true
+		case kCodecM:
+			code, isCodec = 3004, true
+		case kCodecR:
+			code, isCodec = -32000, true
 		default:
 			if srvE != nil {
 				switch kind {
@@ -547,7 +606,7 @@ func (c11) Run(sc core.Scenario) core.Result {
 				break
 			}
 			switch kind {
-			case kMPtr, kMVal, kCodecS, kCodecD:
+			case kMPtr, kMVal, kCodecS, kCodecD, kCodecM, kCodecR:
 				jb, _ := json.Marshal(orig)
 				gb, _ := json.Marshal(got)
 				if string(jb) != string(gb) || got.Error() != orig.Error() {
@@ -634,6 +693,8 @@ func clientTypeFor(t int, code int) reflect.Type {
 		add(3001, new(*CodecS))
 		add(3002, new(*CodecD))
 		add(3003, new(*CodecF))
+		add(3004, new(*CodecM))
+		add(-32000, new(*CodecR))
 	case tDisjoint:
 		add(201, new(EVal))
 		add(202, new(*EPtr))
